@@ -35,14 +35,14 @@ TYPES = {
     "u32": "uint32_t", "i32": "int32_t", "u64": "uint64_t", "i64": "int64_t", "f32": "float", "f64": "double",
     "ptr": "int*", "bool": "bool", "enumE": "vf::EnumE", "B3": "vf::B3", "B12": "vf::B12", "M8": "vf::Mod8",
     "B5": "vf::B5", "B6": "vf::B6", "B20": "vf::B20", "B24": "vf::B24",
-    "Ctm8": "vf::CopyTrivMove8", "Amp8": "vf::Amp8", "bptr": "vf::BasePtr",
+    "Ctm8": "vf::CopyTrivMove8", "Amp8": "vf::Amp8", "bptr": "vf::BasePtr", "Cnt8": "vf::Cnt8",
     "Tr4": "vf::Tracked<4>", "Tr8": "vf::Tracked<8>", "Tr24": "vf::Tracked<24>", "TrMv8": "vf::Tracked<8, false>",
     "str": "std::string", "uptr": "std::unique_ptr<int>",
 }
 SIZES = {"u8": 1, "i8": 1, "char": 1, "byte": 1, "u16": 2, "i16": 2, "u32": 4, "i32": 4, "u64": 8, "i64": 8, "f32": 4,
-         "f64": 8, "ptr": 8, "bool": 1, "enumE": 1, "B3": 3, "B12": 12, "B5": 5, "B6": 6, "B20": 20, "B24": 24, "Ctm8": 8, "Amp8": 8, "bptr": 8, "M8": 1, "Tr4": 4, "Tr8": 8, "Tr24": 24, "TrMv8": 8,
+         "f64": 8, "ptr": 8, "bool": 1, "enumE": 1, "B3": 3, "B12": 12, "B5": 5, "B6": 6, "B20": 20, "B24": 24, "Ctm8": 8, "Amp8": 8, "bptr": 8, "Cnt8": 8, "M8": 1, "Tr4": 4, "Tr8": 8, "Tr24": 24, "TrMv8": 8,
          "str": 32, "uptr": 8}
-NONTRIVIAL = {"Tr4", "Tr8", "Tr24", "TrMv8", "str", "uptr", "Ctm8"}
+NONTRIVIAL = {"Tr4", "Tr8", "Tr24", "TrMv8", "str", "uptr", "Ctm8", "Cnt8"}
 MOVEONLY = {"TrMv8", "uptr"}
 ALLOCATING = {"str", "uptr"}
 COUNT_TYPES = ["u8", "u16", "u32", "u64", "i32", "i64"]
@@ -571,6 +571,8 @@ def conclude(prop, tier, level, units, build_errors, rule, t0, extra_cov=None, m
             if not ev.get("soft"):
                 cut_by_unit.setdefault(u.label, set()).add(ev.get("case"))
         for u in units:
+            if u.label.startswith("probe:"):
+                continue  # probe units drive an open finding on purpose: what cuts their cases is the finding itself
             n_cut = len(cut_by_unit.get(u.label, ()))
             if n_cut >= 4 and n_cut * 2 > len(u.case_ends):
                 inconclusive.append("%s: %d of %d cases were cut short by violations of other properties" % (u.label, n_cut, len(u.case_ends)))
